@@ -10,7 +10,7 @@ def handle (case obs : List String) : String × String :=
   | none => bad
   | some m =>
     let v := match case with
-      | "enc" :: _ =>
+      | "penc" :: _ | "enc" :: _ =>
         match parseEncCase case with
         | none => "fail:bad-case"
         | some c =>
@@ -22,7 +22,7 @@ def handle (case obs : List String) : String × String :=
                    ("bytes-are-spec-framing-of-messages", ds.flatten == expected),
                    ("no-empty-chunk", ds.all (fun d => !d.isEmpty)),
                    ("chunks-are-whole-frames", ds.all (fun d => (Spec.Framing.split d).2.isEmpty))]
-      | "dec" :: _ =>
+      | "pdec" :: _ | "dec" :: _ =>
         match parseDecCase case with
         | none => "fail:bad-case"
         | some c =>
